@@ -998,8 +998,33 @@ theorem setPrice_pres {cfg : Cfg} {s : State} {a : Nat} {t : Option Nat} : Pres 
 was left in the position. `UpdateLockedBorrows` deletes the position whenever `AmountIn − pledge ≤ 0` without looking at
 `AvailableToBorrow` or at the other borrows (see `C08.totalLend_handover_counterexample`). -/
 def HandoverClean (s : State) (k : Nat) : Prop :=
-  ∀ b l, getBorrow s.borrows k = some b → getLend s.lends b.lendingId = some l →
-    l.amountIn - b.amountIn > 0 ∨ l.avail + pledgedOf s.borrows l.id = b.amountIn
+  match getBorrow s.borrows k with
+  | none => True
+  | some b =>
+    match getLend s.lends b.lendingId with
+    | none => True
+    | some l => l.amountIn - b.amountIn > 0 ∨ l.avail + pledgedOf s.borrows l.id = b.amountIn
+
+instance (s : State) (k : Nat) : Decidable (HandoverClean s k) := by
+  unfold HandoverClean; split
+  · infer_instance
+  · split <;> infer_instance
+
+theorem HandoverClean.use {s : State} {k : Nat} (hc : HandoverClean s k) {b : Borrow} {l : Lend} (hb : getBorrow s.borrows k = some b)
+    (hl : getLend s.lends b.lendingId = some l) : l.amountIn - b.amountIn > 0 ∨ l.avail + pledgedOf s.borrows l.id = b.amountIn := by
+  unfold HandoverClean at hc
+  rw [hb] at hc
+  simp only at hc
+  rw [hl] at hc
+  exact hc
+
+/-- the side condition of one step: only hand-overs have one -/
+def cleanStep (s : State) : Op → Prop
+  | .handover k _ => HandoverClean s k
+  | _ => True
+
+instance (s : State) (op : Op) : Decidable (cleanStep s op) := by
+  cases op <;> unfold cleanStep <;> infer_instance
 
 theorem handover_core {cfg : Cfg} {s s' : State} {k : Nat} {ni : Dec} (h : handover cfg s k ni = .ok s') (c : CoreS cfg s) : CoreS cfg s' := by
   unfold handover at h
@@ -1020,7 +1045,7 @@ theorem handover_tl {cfg : Cfg} {s s' : State} {k : Nat} {ni : Dec} (h : handove
     have hb := ‹getBorrow s.borrows k = some _›
     have hq0 := bnot_true ‹(!Borrow.liq _) = true›
     have hgl := ‹getLend s.lends _ = some _›
-    have hcl := hc _ _ hb hgl
+    have hcl := hc.use hb hgl
   · have hclean := hcl.resolve_left ‹¬ (_ : Int) > 0›
     exact tl_handoverDel c t (getBorrow_id hb) (by rfl) (by rfl) hq0 (by rfl) hgl hclean _ _ _ _
   · exact tl_handoverKeep c t (getBorrow_id hb) (by rfl) (by rfl) hq0 (by rfl) hgl
@@ -1064,7 +1089,7 @@ theorem step_core {cfg : Cfg} {s s' : State} {op : Op} (h : step cfg s op = .ok 
     · exact handover_core h c
 
 theorem step_tl {cfg : Cfg} {s s' : State} {op : Op} (h : step cfg s op = .ok s') (c : CoreS cfg s) (t : TotalLendEq s)
-    (hc : ∀ k ni, op = .handover k ni → HandoverClean s k) : TotalLendEq s' := by
+    (hc : cleanStep s op) : TotalLendEq s' := by
   cases hop : op.isHandover
   · exact (step_pres h hop).2 c t
   · cases op <;> try cases hop
@@ -1072,6 +1097,95 @@ theorem step_tl {cfg : Cfg} {s s' : State} {op : Op} (h : step cfg s op = .ok s'
     unfold step at h
     split at h
     · cases h
-    · exact handover_tl h c t (hc k ni rfl)
+    · exact handover_tl h c t hc
+
+/-! ## Guards: LTV, pool funds, availability -/
+
+theorem verifyCR_ok {cfg : Cfg} {prices : List (Nat × Nat)} {aIn : Int} {assetIn : Nat} {aOut : Int} {assetOut : Nat} {ltv : Dec} {u : Unit}
+    (h : verifyCR cfg prices aIn assetIn aOut assetOut ltv = .ok u) :
+    ∃ r, collRatio cfg prices aIn assetIn aOut assetOut = .ok r ∧ r ≤ ltv := by
+  unfold verifyCR at h
+  split at h
+  · cases h
+  · rename_i r hr
+    split at h
+    · cases h
+    · exact ⟨r, hr, Int.not_lt.mp ‹_›⟩
+
+theorem collRatio_ok {cfg : Cfg} {prices : List (Nat × Nat)} {aIn : Int} {assetIn : Nat} {aOut : Int} {assetOut : Nat} {r : Dec}
+    (h : collRatio cfg prices aIn assetIn aOut assetOut = .ok r) :
+    ∃ vin vout, calcPrice cfg prices assetIn aIn = .ok vin ∧ calcPrice cfg prices assetOut aOut = .ok vout ∧ vin ≠ 0 ∧ r = Dec.quo vout vin := by
+  unfold collRatio at h
+  split at h
+  · cases h
+  · split at h
+    · cases h
+    · split at h
+      · cases h
+      · simp only [Except.ok.injEq] at h
+        exact ⟨_, _, ‹_›, ‹_›, ‹_›, h.symm⟩
+
+theorem decide_not_gt {a b : Int} (h : decide (¬ a > b) = true) : a ≤ b := by
+  have := of_decide_eq_true h
+  omega
+
+/-- half-even chopping of a non-negative number loses at most half a unit -/
+theorem chopRound_lower (x : Int) (hx : 0 ≤ x) : 2 * x - Dec.P ≤ 2 * (Dec.chopRound x * Dec.P) := by
+  unfold Dec.chopRound Dec.chopRoundNonneg
+  have h1 : ¬ x < 0 := by omega
+  simp only [h1, if_false, Int.tdiv_eq_ediv_of_nonneg hx, Int.tmod_eq_emod_of_nonneg hx, Dec.P, Dec.half]
+  repeat' split
+  all_goals omega
+
+/-- **Exact-rational reading of the `Dec` comparison**: if the quotient the chain computes, `Quo(vout, vin)`, is at most `ltv`
+(all raw 10⁻¹⁸ integers, `vin > 0`, `vout ≥ 0`) then `vout / vin < ltv·10⁻¹⁸ + ½·10⁻¹⁸ + 10⁻³⁶` as rationals:
+`2·vout·10³⁶ < ((2·ltv + 1)·10¹⁸ + 2)·vin`. -/
+theorem quo_le_exact (vout vin ltv : Int) (ho : 0 ≤ vout) (hi : 0 < vin) (h : Dec.quo vout vin ≤ ltv) :
+    2 * (vout * Dec.PP) < ((2 * ltv + 1) * Dec.P + 2) * vin := by
+  unfold Dec.quo at h
+  have hpp : 0 ≤ vout * Dec.PP := Int.mul_nonneg ho (by decide)
+  rw [Int.tdiv_eq_ediv_of_nonneg hpp] at h
+  have hx : 0 ≤ vout * Dec.PP / vin := Int.ediv_nonneg hpp (Int.le_of_lt hi)
+  have h1 := chopRound_lower _ hx
+  have h2 := Int.lt_ediv_add_one_mul_self (vout * Dec.PP) hi
+  have hP : (0 : Int) < Dec.P := by decide
+  -- 2x ≤ (2·ltv + 1)·P
+  have h3 : 2 * (vout * Dec.PP / vin) ≤ (2 * ltv + 1) * Dec.P := by
+    have : Dec.chopRound (vout * Dec.PP / vin) * Dec.P ≤ ltv * Dec.P := Int.mul_le_mul_of_nonneg_right h (Int.le_of_lt hP)
+    have e : (2 * ltv + 1) * Dec.P = 2 * (ltv * Dec.P) + Dec.P := by rw [Int.add_mul, Int.mul_assoc, Int.one_mul]
+    omega
+  have h4 : (2 * (vout * Dec.PP / vin) + 2) * vin ≤ ((2 * ltv + 1) * Dec.P + 2) * vin :=
+    Int.mul_le_mul_of_nonneg_right (by omega) (Int.le_of_lt hi)
+  have e2 : (2 * (vout * Dec.PP / vin) + 2) * vin = 2 * ((vout * Dec.PP / vin + 1) * vin) := by
+    rw [Int.add_mul, Int.add_mul, Int.mul_assoc, Int.one_mul, Int.mul_add]
+  omega
+
+theorem iterLends_borrows {cfg : Cfg} {s s1 : State} {k : Nat} {r : Int} (h : iterLends cfg s k r = .ok s1) : s1.borrows = s.borrows := by
+  unfold iterLends at h
+  invert h <;> rfl
+
+theorem iterBorrow_frame {s s1 : State} {k : Nat} {x : ExtB} (h : iterBorrow s k x = .ok s1) :
+    s1.bank = s.bank ∧ s1.prices = s.prices ∧ s1.lends = s.lends ∧ s1.stats = s.stats := by
+  unfold iterBorrow at h
+  split at h
+  · cases h
+  · cases h
+  · split at h
+    · cases h
+    · cases h; exact ⟨rfl, rfl, rfl, rfl⟩
+
+theorem find_del {α} (key : α → Nat) (l : List α) (k : Nat) : (del key l k).find? (fun x => key x == k) = none := by
+  apply List.find?_eq_none.mpr
+  intro x hx
+  have := (mem_del key l k x hx).2
+  simp [this]
+
+theorem getLend_setLend {ls : List Lend} {l l' : Lend} (hg : getLend ls l.id = some l) (hid : l'.id = l.id) :
+    getLend (setLend ls l') l.id = some l' := by
+  have := find_put lid ls l l' (getLend_mem hg).1 (by simp [lid, hid])
+  simp only [lid, hid] at this
+  exact this
+
+theorem getLend_delLend (ls : List Lend) (k : Nat) : getLend (delLend ls k) k = none := find_del lid ls k
 
 end Comdex.Lend
